@@ -4,6 +4,8 @@ import (
 	"encoding/json"
 	"fmt"
 	"math"
+	"os"
+	"path/filepath"
 	"regexp"
 	"strconv"
 	"strings"
@@ -32,7 +34,7 @@ var (
 )
 
 func w() *wk.Client {
-	workerOnce.Do(func() { worker = wk.New(wk.Options{CPULimit: 20 * time.Second}) })
+	workerOnce.Do(func() { worker = wk.New(wk.Options{CPULimit: 60 * time.Second}) })
 	return worker
 }
 
@@ -605,6 +607,7 @@ func TestHistories(t *testing.T) {
 		v := evaluate(h)
 		if v.Inconclusive != "" {
 			s.Counter("inconclusive_worker_killed_or_timeout", 1)
+			saveInconclusive(h, v.Inconclusive)
 			t.Skip("inconclusive: " + v.Inconclusive)
 		}
 		if v.Key != "" {
@@ -614,6 +617,20 @@ func TestHistories(t *testing.T) {
 			c.Nontrivial()
 		}
 	})
+}
+
+// saveInconclusive keeps the history of a killed / timed-out run for inspection
+// (replay format, key "inconclusive"; it is not a violation).
+func saveInconclusive(h *history, why string) {
+	dir := os.Getenv("VERIF_REPLAY_DIR")
+	if dir == "" {
+		return
+	}
+	raw, _ := json.Marshal(h)
+	rf := core.ReplayFile{Property: prop, Test: "Histories", Key: "inconclusive", What: why, Seed: core.Seed(), Case: raw}
+	data, _ := json.MarshalIndent(rf, "", " ")
+	os.MkdirAll(dir, 0o755)
+	os.WriteFile(filepath.Join(dir, fmt.Sprintf("inconclusive-%016x.json", core.Hash64(raw))), data, 0o644)
 }
 
 func replay(test string, raw json.RawMessage) (string, string) {
